@@ -896,6 +896,9 @@ theorem integral_deposit (shape : List Int) (vol data : Idx → K) (c : Idx) (v 
     integral shape vol (deposit data c v) = integral shape vol data + v * vol c := by
   rw [integral_eq, integral_eq, sum_deposit _ (cells_nodup shape), if_pos ((mem_cells_iff shape c).mpr hc)]
 
+theorem volIdx_false (n i : Int) : volIdx false n i = i := by
+  unfold volIdx; simp
+
 theorem validIdx1 {n c : Int} (h0 : 0 ≤ c) (h1 : c < n) : validIdx [n] [c] = true := by
   simp [validIdx, h0, h1]
 
